@@ -514,6 +514,23 @@ def r13_5(ctx):
     return r
 
 
+def r13_7(ctx):
+    r = Rule("R13.7", "the dynamic-prop set only grows while the attributes are folded: a name that was recorded as dynamic stays recorded",
+             "removing a name because a later attribute repeats it leaves the earlier dynamic value in the props without a hint")
+    hb = C.role_or_fail(ctx, r, "attr_fold")
+    if not hb:
+        return r
+    r.saw(hb["path"])
+    n = 0
+    for x in walk(hb["body"]):
+        if x.get("k") == "MethodCall" and (local_of(x["recv"]) or ("", 0))[0] == "dynamic_props":
+            n += 1
+            if x["method"] in ("remove", "shift_remove", "swap_remove", "retain", "clear", "pop", "drain", "take", "truncate", "shift_remove_full", "swap_remove_full", "difference"):
+                r.ob("dynamic_props.%s" % x["method"], False, C.mloc(hb, x), "a recorded dynamic prop name is taken out of the set again")
+    r.ob("uses of the dynamic-prop set are additions / reads", True, "-", "%d method call(s) on dynamic_props" % n)
+    return r
+
+
 def r13_6(ctx):
     r = Rule("R13.6", "constant-ness is conservative: only literals, `undefined`, and arrays/objects of constants are constant; everything else is dynamic",
              "a dynamic value classified constant is left out of every hint")
@@ -572,7 +589,7 @@ def r13_6(ctx):
 
 
 def rules(ctx):
-    return [__import__('vjsx.rules.c10', fromlist=['x']).field_ratchet('hints must not depend on earlier elements'), r13_1, r13_2, r13_3, r13_4, r13_5, r13_6]
+    return [__import__('vjsx.rules.c10', fromlist=['x']).field_ratchet('hints must not depend on earlier elements'), r13_7, r13_1, r13_2, r13_3, r13_4, r13_5, r13_6]
 
 
 EXPLANATION = (
